@@ -562,6 +562,13 @@ Section Linux.
     if (k_rc r <? 0)%Z then (hfail (k_errno r), w1)
     else (HR 0 None (bs_inter (bs_inter (k_set r) (bs_range 0 setsize_bits)) (bs_range 0 (cpu_last + 1))) 0, w1).
 
+  (* the pthread_getaffinity_np branch of hwloc_linux_get_thread_cpubind (a pthread_t that is not the caller):
+     the buffer holds last+1 bits, every PU up to AND INCLUDING the last one of the complete cpuset is copied *)
+  Definition get_other_thread_cpubind (tid : Z) (w : lw) : hres * lw :=
+    let (r, w1) := kc (K_getaffinity tid) w in
+    if (k_rc r <? 0)%Z then (hfail (k_errno r), w1)
+    else (HR 0 None (bs_inter (k_set r) (bs_range 0 (cpu_last + 1))) 0, w1).
+
   (* hwloc_linux_get_tid_last_cpu_location *)
   Definition get_tid_last (tid : Z) (w : lw) : hres * lw :=
     let (r, w1) := kc (K_lastcpu tid) w in
@@ -789,7 +796,7 @@ Section Linux.
     (* tid == pthread_self() is who = 1 ("self"); another thread goes through pthread_setaffinity_np,
        which ends in the same system call on that thread *)
     | H_set_thread_cpubind => enosys_if_pid (set_tid_cpubind (if (hc_who c =? 1)%Z then 0 else hc_who c) (the_set c)) w
-    | H_get_thread_cpubind => enosys_if_pid (get_tid_cpubind (if (hc_who c =? 1)%Z then 0 else hc_who c)) w
+    | H_get_thread_cpubind => enosys_if_pid (if (hc_who c =? 1)%Z then get_tid_cpubind 0 else get_other_thread_cpubind (hc_who c)) w
     | H_get_thisproc_last => get_pid_last tpid w
     | H_get_thisthread_last =>
       enosys_if_pid (fun w => let (r, w1) := kc K_getcpu w in
